@@ -296,4 +296,183 @@ def cellOK (tbl : List CellEntry) (known : List (String × String)) (c : StateCe
 def badCells (tbl : List CellEntry) (known : List (String × String)) (cs : List StateCell) : List StateCell :=
   cs.filter (fun c => !cellOK tbl known c)
 
+/-! ## resets that are executed on every run
+
+`Generated.C20Resets.uses` lists, for every package-level variable that some function sets to a
+constant, every place that touches it, with the conditions under which that place is executed
+inside its function (`conds`, `guards`), and `Generated.C20Resets.entry` the calls of the functions
+a run of the command-line interpreter goes through around the script's own code. The tables below
+say, for every cell whose discipline is `resetBeforeRead` or `restoredAtEnd`, **which place keeps
+it clean** — it must exist, lie directly in the body of its function (`conds` exactly as listed,
+normally none) and be preceded by no other way out of the function than the listed `guards`, each of
+which is argued in `why`. A reset that is deleted, moved under a condition, or moved behind a new
+early return no longer meets its entry and the obligation fails. -/
+
+structure ResetSpec where
+  pkg : String          -- the cell whose discipline rests on this place
+  name : String
+  usePkg : String       -- the variable touched there: the cell itself, or the hook variable through which
+  useName : String      --   its restore function is called
+  touch : Touch
+  via : String
+  file : String
+  fn : String
+  conds : List String
+  guards : List String
+  why : String
+
+def resetSpecs : List ResetSpec := [
+  ⟨"data", "userOutputEmitted", "data", "userOutputEmitted", .resets, "ResetUserOutput", "runtime/vm.go", "VM.LoadAndRun", [],
+    ["if vm.GetPhpFileCache(file)"],
+    "first statement after the include-cache test; the cache of a VM that has not run anything is empty, so the entry script of a fresh VM always passes it"⟩,
+  ⟨"data", "FlushAllBuffersFn", "data", "FlushAllBuffersFn", .sets, "", "std/php/load.go", "Load", [], [],
+    "php.Load stores core.FlushAllBuffers on every VM construction"⟩,
+  ⟨"node", "CheckExecutionTimeLimit", "node", "CheckExecutionTimeLimit", .sets, "", "std/php/load.go", "Load", [], [],
+    "php.Load stores a closure that captures nothing"⟩,
+  ⟨"node", "MarkHeaderOutputStarted", "node", "MarkHeaderOutputStarted", .sets, "", "std/php/load.go", "Load", [], [],
+    "php.Load stores core.MarkHeaderOutputStarted"⟩,
+  ⟨"runtime", "RunHeaderCallbacksFn", "runtime", "RunHeaderCallbacksFn", .sets, "", "std/php/load.go", "Load", [], [],
+    "php.Load stores core.RunHeaderCallbacks"⟩,
+  -- restored at the end of the run: the restore function is reached through a hook variable
+  ⟨"data", "WriteOutput", "data", "FlushAllBuffersFn", .reads, "", "runtime/vm.go", "VM.LoadAndRun", ["if data.FlushAllBuffersFn != nil"],
+    ["if vm.GetPhpFileCache(file)", "if acl != nil"],
+    "core.FlushAllBuffers (stored in the hook by php.Load, see its own entry) empties the buffer stack and puts the default writer back; skipped only when the file was not run at all (already loaded / does not parse)"⟩,
+  ⟨"data", "WriteOutput", "data", "FlushAllBuffersFn", .reads, "", "runtime/vm.go", "NewVM", ["func literal", "if data.FlushAllBuffersFn != nil"], [],
+    "the default throw control flushes before it reports the uncaught throw and ends the process"⟩,
+  ⟨"std/php/core", "obStack", "data", "FlushAllBuffersFn", .reads, "", "runtime/vm.go", "VM.LoadAndRun", ["if data.FlushAllBuffersFn != nil"],
+    ["if vm.GetPhpFileCache(file)", "if acl != nil"], "as data.WriteOutput"⟩,
+  ⟨"std/php/core", "headerCallbacks", "runtime", "RunHeaderCallbacksFn", .reads, "", "runtime/shutdown_hooks.go", "runHeaderCallbacks", ["if RunHeaderCallbacksFn != nil"], [],
+    "core.RunHeaderCallbacks runs and clears the list; runHeaderCallbacks is called by VM.RunShutdownCallbacks (entry path below)"⟩,
+  ⟨"std/php/core", "headerCallbacks", "std/php/core", "headerCallbacks", .resets, "", "std/php/core/header_register_callback.go", "RunHeaderCallbacks", [], [],
+    "headerCallbacks = nil after the loop, no way out before it"⟩
+]
+
+def resetPerRun (d : Discipline) : Bool := d == .resetBeforeRead || d == .restoredAtEnd
+
+def specMet (uses : List CellUse) (s : ResetSpec) : Bool :=
+  uses.any (fun u => u.pkg == s.usePkg && u.name == s.useName && u.touch == s.touch && u.via == s.via &&
+    u.file == s.file && u.fn == s.fn && u.conds == s.conds && u.guards.all (fun g => s.guards.contains g))
+
+/-- what is not in order: a spec no regenerated place meets, or a reset-per-run cell without a spec -/
+def badResets (tbl : List CellEntry) (specs : List ResetSpec) (uses : List CellUse) : List String :=
+  ((specs.filter (fun s => !specMet uses s)).map
+    (fun s => s!"reset of {s.pkg}.{s.name} is no longer executed unconditionally in {s.file} {s.fn} (place: {s.usePkg}.{s.useName} via '{s.via}')")) ++
+  ((tbl.filter (fun e => resetPerRun e.disc && !specs.any (fun s => s.pkg == e.pkg && s.name == e.name))).map
+    (fun e => s!"reset-per-run cell {e.pkg}.{e.name} has no place listed that resets it"))
+
+/-! ### every observer of a reset-per-run cell is probed
+
+A cell can be left dirty by a script when some place stores a run-time value into it, or when two
+different places store constants (`MarkUserOutput` stores true, `ResetUserOutput` false). For such a
+cell, every function that reads it (not the accessors themselves: their callers) must be reached by
+the `B` side of a clean channel of `harness/c20/pairs.go` whose `A` side dirties the cell; the
+harness asks the driver for the channel names and refuses to run when one is missing. -/
+
+structure Probe where
+  pkg : String
+  name : String
+  file : String
+  fn : String
+  channels : List String
+
+def probes : List Probe := [
+  ⟨"data", "userOutputEmitted", "parser/parser_print.go", "Parser.printPHPUncaughtError",
+    ["reset:user-output:echo->uncaught-error", "reset:user-output:var_dump->uncaught-error", "reset:user-output:inline-html->uncaught-error"]⟩,
+  ⟨"data", "userOutputEmitted", "parser/parser_print.go", "Parser.printPHPCompileFatal",
+    ["reset:user-output:echo->compile-fatal", "reset:user-output:var_dump->compile-fatal", "reset:user-output:inline-html->compile-fatal"]⟩,
+  ⟨"data", "userOutputEmitted", "std/php/core/call_user_func.go", "CallUserFuncFunction.resolveObjectCallback",
+    ["reset:user-output:echo->callable-deprecation", "reset:user-output:var_dump->callable-deprecation", "reset:user-output:inline-html->callable-deprecation"]⟩,
+  ⟨"data", "WriteOutput", "node/echo.go", "EchoStatement.GetValue", ["reset:output-writer:open-buffer->echo", "reset:output-writer:throw-in-buffer->echo"]⟩,
+  ⟨"data", "WriteOutput", "node/inline_html.go", "InlineHTMLNode.GetValue", ["reset:output-writer:open-buffer->inline-html", "reset:output-writer:throw-in-buffer->inline-html"]⟩,
+  ⟨"data", "WriteOutput", "std/php/core/ob_start.go", "FlushAllBuffers", ["reset:output-writer:open-buffer->open-buffer", "reset:output-writer:throw-in-buffer->open-buffer"]⟩,
+  ⟨"std/php/core", "headerCallbacks", "std/php/core/header_register_callback.go", "HeaderRegisterCallbackFunction.Call", ["reset:header-callbacks:registered->register"]⟩,
+  ⟨"std/php/core", "headerCallbacks", "std/php/load.go", "Load",
+    ["reset:header-callbacks:registered->shutdown", "reset:header-callbacks:registered->shutdown-after-callbacks"]⟩
+]
+
+def usesOf (uses : List CellUse) (pkg name : String) : List CellUse :=
+  uses.filter (fun u => u.pkg == pkg && u.name == name)
+
+def isStore (t : Touch) : Bool := t == .resets || t == .sets
+
+/-- a script can leave the cell in more than one state -/
+def dirtiable (us : List CellUse) : Bool :=
+  us.any (fun u => u.touch == .writes || u.touch == .readsWrites) ||
+  ((us.filter (fun u => isStore u.touch && u.via == "")).map (fun u => (u.file, u.fn))).eraseDups.length ≥ 2
+
+def isObserver (u : CellUse) : Bool := !u.accessor && (u.touch == .reads || u.touch == .readsWrites)
+
+/-- observers of dirtiable reset-per-run cells that no channel is listed for -/
+def unprobed (tbl : List CellEntry) (ps : List Probe) (uses : List CellUse) : List CellUse :=
+  (tbl.filter (fun e => resetPerRun e.disc)).flatMap (fun e =>
+    let us := usesOf uses e.pkg e.name
+    if dirtiable us then
+      us.filter (fun u => isObserver u &&
+        !ps.any (fun p => p.pkg == u.pkg && p.name == u.name && p.file == u.file && p.fn == u.fn && !p.channels.isEmpty))
+    else [])
+
+def probeChannels (ps : List Probe) : List String := (ps.flatMap (·.channels)).eraseDups
+
+/-! ### the entry path of a run, as the in-process runner of the harness mirrors it
+
+`harness/c20/runner.go` runs a script through `cmd.RunScriptFile` itself, with a runtime loader that
+makes the same `Load` calls as `zy.go` and replaces the VM's default throw control (flush, report,
+`os.Exit(1)`) by flush, report, end of the run with status 1. That mirror is only right as long as
+these functions make the calls listed here, in this order, under these conditions (`conds`) and behind
+these earlier ways out (`guards`). -/
+
+def expectedEntry : List EntryStep := [
+  ⟨"zy.go", "init", "cmd.SetRuntimeLoader", [], []⟩,
+  ⟨"zy.go", "init", "std.Load", ["func literal"], []⟩,
+  ⟨"zy.go", "init", "php.Load", ["func literal"], []⟩,
+  ⟨"zy.go", "init", "http.Load", ["func literal"], []⟩,
+  ⟨"zy.go", "init", "websocket.Load", ["func literal"], []⟩,
+  ⟨"zy.go", "init", "netannotation.Load", ["func literal"], []⟩,
+  ⟨"zy.go", "init", "system.Load", ["func literal"], []⟩,
+  ⟨"cmd/runtime.go", "getRuntimeVM", "panic", ["if runtimeLoader == nil"], []⟩,
+  ⟨"cmd/runtime.go", "getRuntimeVM", "parser.NewParser", [], ["if runtimeLoader == nil"]⟩,
+  ⟨"cmd/runtime.go", "getRuntimeVM", "runtime.NewVM", [], ["if runtimeLoader == nil"]⟩,
+  ⟨"cmd/runtime.go", "getRuntimeVM", "runtimeLoader", [], ["if runtimeLoader == nil"]⟩,
+  ⟨"cmd/root.go", "RunScriptFile", "os.Stat", [], []⟩,
+  ⟨"cmd/root.go", "RunScriptFile", "os.IsNotExist", [], []⟩,
+  ⟨"cmd/root.go", "RunScriptFile", "fmt.Fprintf", ["if os.IsNotExist(err)"], []⟩,
+  ⟨"cmd/root.go", "RunScriptFile", "rootCmd.Help", ["if os.IsNotExist(err)"], []⟩,
+  ⟨"cmd/root.go", "RunScriptFile", "fmt.Errorf", ["if os.IsNotExist(err)"], []⟩,
+  ⟨"cmd/root.go", "RunScriptFile", "getRuntimeVM", [], ["if os.IsNotExist(err)"]⟩,
+  ⟨"cmd/root.go", "RunScriptFile", "vm.LoadAndRun", [], ["if os.IsNotExist(err)"]⟩,
+  ⟨"cmd/root.go", "RunScriptFile", "p.ShowControl", ["if err != nil"], ["if os.IsNotExist(err)"]⟩,
+  ⟨"cmd/root.go", "RunScriptFile", "vm.RunShutdownCallbacks", [], ["if os.IsNotExist(err)"]⟩,
+  ⟨"cmd/root.go", "RunScriptFile", "errors.New", ["if err != nil"], ["if os.IsNotExist(err)"]⟩,
+  ⟨"cmd/root.go", "RunScriptFile", "err.AsString", ["if err != nil"], ["if os.IsNotExist(err)"]⟩,
+  ⟨"runtime/vm.go", "NewVM", "data.FlushAllBuffersFn", ["func literal", "if data.FlushAllBuffersFn != nil"], []⟩,
+  ⟨"runtime/vm.go", "NewVM", "parser.ShowControl", ["func literal"], []⟩,
+  ⟨"runtime/vm.go", "NewVM", "os.Exit", ["func literal"], []⟩,
+  ⟨"runtime/vm.go", "NewVM", "NewContext", [], []⟩,
+  ⟨"runtime/vm.go", "NewVM", "parser.SetVM", [], []⟩,
+  ⟨"runtime/vm.go", "VM.LoadAndRun", "normalizePhpFilePath", [], []⟩,
+  ⟨"runtime/vm.go", "VM.LoadAndRun", "vm.GetPhpFileCache", [], []⟩,
+  ⟨"runtime/vm.go", "VM.LoadAndRun", "vm.SetPhpFileCache", [], ["if vm.GetPhpFileCache(file)"]⟩,
+  ⟨"runtime/vm.go", "VM.LoadAndRun", "data.ResetUserOutput", [], ["if vm.GetPhpFileCache(file)"]⟩,
+  ⟨"runtime/vm.go", "VM.LoadAndRun", "vm.parser.Clone", [], ["if vm.GetPhpFileCache(file)"]⟩,
+  ⟨"runtime/vm.go", "VM.LoadAndRun", "p.ParseFile", [], ["if vm.GetPhpFileCache(file)"]⟩,
+  ⟨"runtime/vm.go", "VM.LoadAndRun", "p.GetVariables", [], ["if vm.GetPhpFileCache(file)", "if acl != nil"]⟩,
+  ⟨"runtime/vm.go", "VM.LoadAndRun", "vm.CreateContext", [], ["if vm.GetPhpFileCache(file)", "if acl != nil"]⟩,
+  ⟨"runtime/vm.go", "VM.LoadAndRun", "vm.RegisterGlobalContext", [], ["if vm.GetPhpFileCache(file)", "if acl != nil"]⟩,
+  ⟨"runtime/vm.go", "VM.LoadAndRun", "program.GetValue", [], ["if vm.GetPhpFileCache(file)", "if acl != nil"]⟩,
+  ⟨"runtime/vm.go", "VM.LoadAndRun", "data.FlushAllBuffersFn", ["if data.FlushAllBuffersFn != nil"], ["if vm.GetPhpFileCache(file)", "if acl != nil"]⟩,
+  ⟨"runtime/shutdown.go", "VM.RunShutdownCallbacks", "vm.shutdownRunOnce.Do", [], []⟩,
+  ⟨"runtime/shutdown.go", "VM.RunShutdownCallbacks", "callShutdownCallback", ["func literal", "range vm.shutdownCallbacks"], []⟩,
+  ⟨"runtime/shutdown.go", "VM.RunShutdownCallbacks", "runHeaderCallbacks", ["func literal"], []⟩,
+  ⟨"runtime/shutdown_hooks.go", "runHeaderCallbacks", "RunHeaderCallbacksFn", ["if RunHeaderCallbacksFn != nil"], []⟩
+]
+
+/-- first call of the regenerated entry path that differs from the expected one -/
+def entryDiff : List EntryStep → List EntryStep → Option String
+  | [], [] => none
+  | a :: _, [] => some s!"unexpected call {a.callee} in {a.file} {a.fn}"
+  | [], b :: _ => some s!"missing call {b.callee} in {b.file} {b.fn}"
+  | a :: as, b :: bs =>
+    if a == b then entryDiff as bs
+    else some s!"{a.file} {a.fn}: call {a.callee} under {a.conds} after the exits {a.guards} where {b.callee} under {b.conds} after {b.guards} was expected"
+
 end C20Sites
